@@ -10,6 +10,11 @@ Streams
          answered by the reference accessory with a sealed HTTP response cut into frames and
          reads at random; the HttpResponse the request future resolves to must carry the body
          (end-to-end observation at the request future).
+  pipe   k = 2..4 `send_bytes` calls in flight on one protocol (started back-to-back as tasks, responses withheld
+         and then delivered in order; also with a response between the 2nd and 3rd send, and random schedules).
+         Expected wire bytes = the model's `send` applied sequentially with the counter threaded through; oracle:
+         the strict reference accessory decrypts the concatenation of everything written to the concatenated
+         requests (a frame sealed under an already used counter is reported as `send:pipelined-nonce-reuse`).
   recv   the reference accessory seals plaintext frames; optional single-bit flip in a length
          prefix / ciphertext / tag (or truncation, replay, reordering); the stream is cut into
          reads (every single and double cut of small streams, random multi-cut of large ones).
@@ -350,6 +355,139 @@ def oracle_send(case, idx, ctr_before, written):
     return None
 
 
+# ---------------------------------------------------------------- pipelined send stream
+PIPE_LENS = [1, 2, 1023, 1024, 1025, 2047, 2048, 2049, 3072, 3073]
+
+
+def pipe_schedules(k, r, extra):
+    """'S' = start the next send_bytes (as a task), 'R' = the accessory answers the oldest unanswered request.
+    Always: all requests first, then the responses in order; for k >= 3 a response between the 2nd and 3rd send."""
+    out = ["S" * k + "R" * k]
+    if k >= 3:
+        out.append("SSR" + "S" * (k - 2) + "R" * (k - 1))
+    for _ in range(extra):
+        sch, s_, r_ = "", 0, 0
+        while r_ < k:
+            if s_ < k and (r_ == s_ or r.random() < 0.6):
+                sch += "S"
+                s_ += 1
+            else:
+                sch += "R"
+                r_ += 1
+        if sch not in out and "SS" in sch:
+            out.append(sch)
+    return out
+
+
+def gen_pipe(tier, r):
+    cases = []
+    quick = tier == "quick"
+    for a in PIPE_LENS if not quick else [1, 1023, 1024, 1025, 2049]:
+        for b in PIPE_LENS if not quick else [1, 1024, 1025, 2048]:
+            cases.append(dict(ctr=0, lens=[a, b], schedule="SSRR"))
+    for k in (2, 3, 4):
+        for _ in range(40 if quick else 600):
+            lens = [r.choice(PIPE_LENS + [r.randrange(1, 5000)]) for _ in range(k)]
+            ctr = r.choice([0, 0, 0, 1, 255, 65535, (1 << 32) - 1, r.randrange(1 << 40), 0x0102030405060708])
+            for sch in pipe_schedules(k, r, 1):
+                cases.append(dict(ctr=ctr, lens=lens, schedule=sch))
+    for c in cases:
+        c["payloads"] = [rbytes(r, n) for n in c["lens"]]
+        c["resp_bodies"] = [bytes([i + 1]) * (i + 1) + rbytes(r, r.choice([0, 5, 1000, 1500])) for i in range(len(c["lens"]))]
+        c["a2c_key"], c["c2a_key"] = key_of(r), key_of(r)
+        c["seed"] = r.getrandbits(32)
+    return cases
+
+
+async def impl_pipe(case):
+    """-> dict(writes=[bytes per request or None], status=[...], e2e=[...], ended=bool)"""
+    import random
+    rr = random.Random(case["seed"])
+    proto, link, conn, _ = make_proto(case["a2c_key"], case["c2a_key"], 0, case["ctr"])
+    k = len(case["payloads"])
+    tasks, writes, e2e = [], [], [None] * k
+    actr, answered = 0, 0
+    for op in case["schedule"]:
+        if op == "S":
+            i = len(tasks)
+            before = len(link.writes)
+            try:
+                t = asyncio.ensure_future(proto.send_bytes(case["payloads"][i]))
+                await asyncio.sleep(0)
+            except BaseException as e:  # noqa
+                writes.append(None)
+                tasks.append(None)
+                continue
+            tasks.append(t)
+            if t.done() and not t.cancelled() and t.exception() is not None:
+                writes.append(None)
+                e2e[i] = "raised:" + type(t.exception()).__name__
+            else:
+                writes.append(b"".join(link.writes[before:]))
+        else:
+            i = answered
+            answered += 1
+            plain = http_response(case["resp_bodies"][i])
+            frames = []
+            while plain:
+                n = rr.choice([1, 500, 1024, 1024, rr.randrange(1, 1025)])
+                frames.append(plain[:n])
+                plain = plain[n:]
+            stream = ref.seal_stream(case["a2c_key"], actr, frames)
+            actr += len(frames)
+            for seg in cut(stream, random_cuts(rr, len(stream))):
+                link.deliver(seg)
+            t = tasks[i] if i < len(tasks) else None
+            if t is None or e2e[i] is not None:
+                continue
+            for _ in range(3):
+                if t.done():
+                    break
+                await asyncio.sleep(0)
+            if not t.done():
+                e2e[i] = "no-response"
+            else:
+                try:
+                    resp = t.result()
+                    e2e[i] = "ok" if bytes(resp.body) == case["resp_bodies"][i] else "wrong-response"
+                except BaseException as e:  # noqa
+                    e2e[i] = "exc:" + type(e).__name__
+    for t in tasks:
+        if t is not None and not t.done():
+            t.cancel()
+            try:
+                await t
+            except BaseException:  # noqa
+                pass
+    return dict(writes=writes, e2e=e2e, ended=link.ended)
+
+
+def oracle_pipe(case, writes):
+    """strict reference accessory on everything written, in write order, from the session's start counter"""
+    if any(w is None for w in writes):
+        return ("pipelined-raises", "send_bytes raised although all counters are far below 2^64")
+    rx = ref.RefReceiver(case["c2a_key"], case["ctr"], max_frame=1024)
+    stream = b"".join(writes)
+    rx.feed(stream)
+    want = b"".join(case["payloads"])
+    if rx.dead and rx.why == "auth":
+        # is the rejected frame sealed under a counter this session has already used?
+        hdr, body = rx.bad_frame
+        for old in range(case["ctr"], rx.ctr):
+            if ref.open_(case["c2a_key"], ref.nonce(old), hdr, body) is not None:
+                done = len(b"".join(rx.delivered))
+                return ("pipelined-nonce-reuse",
+                        f"requests {case['lens']} in flight together (schedule {case['schedule']}, start counter {case['ctr']}): frame "
+                        f"{len(rx.delivered)} is sealed with counter {old}, already used on this session, instead of {rx.ctr}; the "
+                        f"accessory rejects it after {done} of {len(want)} request bytes")
+        return ("pipelined-not-authentic", f"reference accessory fails to authenticate frame {len(rx.delivered)} (counter {rx.ctr})")
+    if rx.dead:
+        return ("pipelined-" + rx.why, "reference accessory rejects the stream")
+    if rx.buf or b"".join(rx.delivered) != want:
+        return ("pipelined-wrong-plaintext", f"reference accessory decrypts {len(b''.join(rx.delivered))} bytes, requests total {len(want)}")
+    return None
+
+
 # ---------------------------------------------------------------- recv stream
 def build_recv(key, ctr, frames, mutation=None):
     """-> (stream bytes, table entries, description)"""
@@ -618,6 +756,7 @@ def run(ctx):
     tier, seed = ctx["tier"], ctx["seed"]
     drv = Driver(ctx["driver"])
     cov = Coverage("send: distinct (start counter, payload lengths) session with >= 1 non-empty payload; "
+                   "pipelined-send: distinct (start counter, payload lengths, schedule) with >= 2 requests in flight; "
                    "recv: distinct (frame sizes, corruption, read boundaries) with >= 1 complete frame or a corruption; "
                    "event: distinct body-length lists")
     viols = []
@@ -632,22 +771,25 @@ def run(ctx):
     recv_cases = gen_recv(tier, rng(seed, "c05recv"))
     FakeConnection.UNKNOWN.clear()
     event_cases = gen_event(tier, rng(seed, "c05event"))
+    pipe_cases = gen_pipe(tier, rng(seed, "c05pipe"))
 
     send_model = drv.batch(["sends %d %s" % (c["ctr"], " ".join(hx(p) for p in c["payloads"])) for c in send_cases])
     recv_model = drv.batch([recv_line(c) for c in recv_cases])
+    pipe_model = drv.batch(["sends %d %s" % (c["ctr"], " ".join(hx(p) for p in c["payloads"])) for c in pipe_cases])
 
     async def all_impl():
         s = [await impl_send_session(c) for c in send_cases]
         rv = [await impl_recv(c) for c in recv_cases]
         ev = [await impl_event(c) for c in event_cases]
-        return s, rv, ev
+        pp = [await impl_pipe(c) for c in pipe_cases]
+        return s, rv, ev, pp
 
     loop = asyncio.new_event_loop()
     loop.set_exception_handler(lambda l, c: None)
     prev_disable = logging.root.manager.disable
     logging.disable(logging.CRITICAL)      # the code under test may log per corrupted frame
     try:
-        send_impl, recv_impl, event_impl = loop.run_until_complete(all_impl())
+        send_impl, recv_impl, event_impl, pipe_impl = loop.run_until_complete(all_impl())
     finally:
         logging.disable(prev_disable)
         loop.close()
@@ -699,6 +841,30 @@ def run(ctx):
                      send_len=len(payload) if len(payload) in SEND_LENS else ("%dk+" % (len(payload) // 1024)),
                      send_write_calls=im[2], send_frames=len(m[3]))
             ctr = m[2]
+
+    # ---- pipelined send: several requests in flight on one session; model = send applied sequentially, counter threaded
+    for ci, (c, m_ans, im) in enumerate(zip(pipe_cases, pipe_model, pipe_impl)):
+        m_parts = [model_send_bytes(x, c["c2a_key"]) for x in m_ans.split(" | ")]
+        rep = dict(stream="pipelined-send", start_counter=c["ctr"], payload_lens=c["lens"], schedule=c["schedule"],
+                   c2a_key=hx(c["c2a_key"]), payloads=[hx(p)[:4200] for p in c["payloads"]],
+                   impl_written=[hx(w)[:4400] if w is not None else None for w in im["writes"]],
+                   expected_written=[hx(m[1])[:4400] if m[0] == "ok" else m[0] for m in m_parts])
+        orc = oracle_pipe(c, im["writes"])
+        if orc is not None:
+            report("send:" + orc[0], "send: " + orc[1], True, **rep)
+        elif len(m_parts) != len(im["writes"]) or any(m[0] != "ok" or m[1] != w for m, w in zip(m_parts, im["writes"])):
+            report("send:pipelined-model-mismatch", "bytes written for pipelined requests differ from the model's sequential send "
+                   f"(lens {c['lens']}, schedule {c['schedule']})", False,
+                   broken="correspondence Model/Frame.v send (counter threaded) <-> SecureHomeKitProtocol.send_bytes", **rep)
+        bad = [x for x in im["e2e"] if x != "ok"]
+        if bad and orc is None:
+            report("e2e:pipelined-" + str(bad[0]), f"pipelined requests {c['lens']} (schedule {c['schedule']}): responses delivered in "
+                   f"order by the reference accessory did not resolve the request futures in order: {im['e2e']}", True, **rep)
+        cov.case(f"p{c['ctr']}/{c['lens']}/{c['schedule']}", True,
+                 sample=dict(stream="pipelined-send", start_counter=c["ctr"], payload_lens=c["lens"], schedule=c["schedule"],
+                             written=[len(w) if w is not None else None for w in im["writes"]]) if ci % 61 == 0 else None,
+                 pipe_requests=len(c["lens"]),
+                 pipe_schedule=c["schedule"])
 
     # ---- recv
     for ci, (c, m_ans, (toks, info)) in enumerate(zip(recv_cases, recv_model, recv_impl)):
